@@ -31,9 +31,10 @@ def wf_sub(x: int) -> int:
     return x + 100
 
 
-def wf_prog(prog: list, fail_until: int = 0, die_at: int = -1, tag: int = 0) -> int:
+def wf_prog(prog: list, fail_until: int = 0, die_at: int = -1, tag: int = 0, retry_at: int = -1) -> int:
     """Perform `prog`; raise RetryError on the first `fail_until` attempts (after the operations);
-    on the first attempt die (BaseException) before operation number `die_at` if die_at >= 0."""
+    on the first attempt die (BaseException) before operation number `die_at` if die_at >= 0, or ask for a retry
+    (RetryError) before operation number `retry_at` if retry_at >= 0."""
     from pynenc import context
     from pynenc.identifiers.task_id import TaskId
 
@@ -52,6 +53,11 @@ def wf_prog(prog: list, fail_until: int = 0, die_at: int = -1, tag: int = 0) -> 
         if attempt == 1 and die_at == i:
             rec["died"] = i
             raise Die()
+        if attempt == 1 and retry_at == i:
+            from pynenc.exceptions import RetryError
+
+            rec["retried_at"] = i
+            raise RetryError(f"early retry before operation {i}")
         if "point" in HOOKS:
             HOOKS["point"](op)
         if op == "random":
